@@ -75,6 +75,10 @@ func Gen(t *rapid.T, depth int, unenc bool) Desc {
 		d.S = genString(t, "s")
 	case "bytes":
 		d.B = rapid.SliceOfN(rapid.Byte(), 0, 16).Draw(t, "by")
+		if rapid.IntRange(0, 3).Draw(t, "jsonText") == 0 {
+			// bytes that happen to hold a complete JSON document are bytes all the same (their JSON image is base64 text)
+			d.B = []byte(rapid.SampledFrom([]string{`{"a":1}`, `[1,2,3]`, `{"nested":{"k":["v"]}}`, `[]`, `{}`, `"str"`, `null`, `12`, `true`, ` {"lead":"space"}`}).Draw(t, "jsonBytes"))
+		}
 	case "number":
 		d.S = rapid.SampledFrom([]string{"0", "-1", "1e400", "123456789012345678901234567890", "0.1", "-0"}).Draw(t, "num")
 	case "badnumber":
